@@ -243,12 +243,12 @@ func TestVerif_C01(t *testing.T) {
 	}
 	r.Event("ref_selfcheck_ok", 1)
 
-	r.CasesParallel("histories", r.N(4000, 50000), 0, func(c *verifrt.Case) {
+	r.CasesParallel("histories", r.N(4000, 100000), 0, func(c *verifrt.Case) {
 		c01History(r, c, vuHistCfg{pSensitive: 0.1})
 	})
 	// same, restricted to size-change shapes that stay clear of the two size-update defects
 	// found on the pinned tree, so that long histories keep exercising everything else
-	r.CasesParallel("histories-single-change", r.N(4000, 50000), 0, func(c *verifrt.Case) {
+	r.CasesParallel("histories-single-change", r.N(4000, 100000), 0, func(c *verifrt.Case) {
 		c01History(r, c, vuHistCfg{pSensitive: 0.1, avoidKnown: true})
 	})
 	r.Sample(map[string]any{"what": "first history of stream 'histories' for this seed", "size_ops_before_each_block": c01SamplePlan(r)})
